@@ -213,11 +213,18 @@ def run_impl(case):
             warnings.simplefilter("ignore")
             try:
                 base = read_text(case["text"], case["limit"], sc, "base.imcnp")
-                res["baseline"] = write_text(base, sc, "base_out.imcnp")
             except _Hang:
                 raise
             except Exception as e:  # noqa: BLE001
                 res["read"] = type(e).__name__
+                return res
+            try:
+                res["baseline"] = write_text(base, sc, "base_out.imcnp")
+            except _Hang:
+                raise
+            except Exception as e:  # noqa: BLE001
+                res["read"] = "unedited-write:" + type(e).__name__
+                res["baseline_error"] = type(e).__name__ + ": " + " ".join(str(e).split())[:200]
                 return res
             problem = read_text(case["text"], case["limit"], sc)
             objs = _objects(problem)
@@ -328,6 +335,19 @@ def _mask(den, nf, mts):
     return d
 
 
+LINK_ERRORS = ("MalformedInputError", "BrokenObjectLinkError")
+
+
+def judge_unwritable(case, res):
+    """MontePy read the problem (all links resolved without complaint) but cannot write it because a link is broken:
+    a reference that cannot be written at all.  Other exceptions of an unedited write belong to C01/C12."""
+    err = res.get("baseline_error")
+    if err and err.split(":")[0] in LINK_ERRORS:
+        return ({"mechanism": "renumber", "class": "reference-unwritable", "site": "unedited-write:" + err.split(":")[0], "kind": "none"},
+                f"the problem is read without complaint but cannot be written, renumbered or not: {err}")
+    return None
+
+
 def out_of_scope(case, res, den0, denb):
     """Reason why the case cannot be judged under C04, or None.  C04 starts from a problem MontePy has read as MCNP
     reads it and whose unedited write denotes the same cards; anything else belongs to C01/C11/C12."""
@@ -356,7 +376,7 @@ def judge(case, res, den0, denb, den1):
         return {"mechanism": "renumber", "class": cls, "site": site, "kind": kind or kind_sig}
 
     if res["write"] != "ok":
-        return sig("write-raises", res["write"].split(":")[0]), f"write_to_file raised {res['write']} after the renumbering (the unedited problem is written)"
+        return sig("write-raises", res["write"].split(":")[0], "any"), f"write_to_file raised {res['write']} after the renumbering (the unedited problem is written)"
     try:
         nf0, mts0 = extract(den0)
         nfb, mtsb = extract(denb)
@@ -365,7 +385,7 @@ def judge(case, res, den0, denb, den1):
     try:
         nf1, mts1 = extract(den1)
     except NotInScope as e:
-        return sig("written-file-unreadable", "file"), f"the written file is outside the grammar: {e}"
+        return sig("written-file-unreadable", "file", "any"), f"the written file is outside the grammar: {e}"
     exp = expected_numbers(nf0, ops, res["outs"])
     api = res["numbers"]
     # (a) the API holds the numbers that were assigned; the collections list the same objects
@@ -375,7 +395,7 @@ def judge(case, res, den0, denb, den1):
     if dict(map(tuple, api["univ"])) != {k: v for k, v in exp["univ"].items() if k in dict(map(tuple, api["univ"]))}:
         return sig("api-number-differs", "own-number", "univ"), f"universe numbers per API {api['univ']} != assigned {exp['univ']}"
     if not api["order_kept"]:
-        return sig("collection-reordered", "own-number"), "a collection lists other objects / another order after renumbering"
+        return sig("collection-reordered", "own-number", "any"), "a collection lists other objects / another order after renumbering"
     # (b) own numbers in the written file
     own1 = own_numbers(nf1)
     for k in ("cell", "surf", "mat", "tr"):
@@ -392,7 +412,7 @@ def judge(case, res, den0, denb, den1):
         if gb.get(key, (None, None, None))[2] != tgt:
             continue  # already different on an unedited write: other properties' business
         if key not in g1:
-            return sig("reference-lost", name, kind_sig), f"reference {key} ({name}) is not in the written file"
+            return sig("reference-lost", name, kind), f"reference {key} ({name}) is not in the written file"
         name1, _, tgt1 = g1[key]
         if kind == "univ":
             want = exp["univ"].get(sites(nf0, mts0)[key][2])
@@ -401,19 +421,19 @@ def judge(case, res, den0, denb, den1):
         got = s1[key][2]
         if tgt1 != tgt or (want is not None and got != want):
             cls = "stale-reference" if got == sb[key][2] and got != want else "reference-to-wrong-object"
-            return sig(cls, name1, kind_sig), f"{name1} reference {key}: written {got}, its target now has number {want} (resolves to {tgt1}, was {tgt})"
+            return sig(cls, name1, kind), f"{name1} reference {key}: written {got}, its target now has number {want} (resolves to {tgt1}, was {tgt})"
     for key in sorted(g1):
         if key not in g0 and key not in gb:
-            return sig("reference-invented", g1[key][0], kind_sig), f"reference {key} appears only after the renumbering"
+            return sig("reference-invented", g1[key][0], g1[key][1]), f"reference {key} appears only after the renumbering"
     if mt1 != mt0 and mtb == mt0:
-        return sig("stale-reference" if [m["number"] for m in mts1] == [m["number"] for m in mtsb] else "reference-to-wrong-object", "mt-card", kind_sig), f"MT cards resolve to {mt1}, before {mt0}"
+        return sig("stale-reference" if [m["number"] for m in mts1] == [m["number"] for m in mtsb] else "reference-to-wrong-object", "mt-card", "mat"), f"MT cards resolve to {mt1}, before {mt0}"
     # (d) nothing else changed (relative to the unedited write of the same problem)
     try:
         diff = spec.diff_problems(_mask(denb, nfb, mtsb), _mask(den1, nf1, mts1))
     except NotInScope:
         diff = []
     if diff:
-        return sig("unrelated-change", diff[0][0], kind_sig), f"besides numbers and references the written file differs from the unedited write: {diff[:3]}"
+        return sig("unrelated-change", diff[0][0], "any"), f"besides numbers and references the written file differs from the unedited write: {diff[:3]}"
     return None
 
 
